@@ -83,13 +83,15 @@ def templates():
     return [os.path.join(d, f) for f in sorted(os.listdir(d)) if f.endswith('.rs.in') or f.endswith('.py')]
 
 
-def generate(config, tag):
+def generate(config, tag, tier='quick'):
     exp, key, cached = expand(config)
     gdir = os.path.join(CACHE, 'gen_%s' % tag)
     os.makedirs(gdir, exist_ok=True)
     rs = os.path.join(gdir, 'psc_%s.rs' % config)
     meta = os.path.join(gdir, 'psc_%s.meta.json' % config)
     flags = ['std'] if config == 'std' else [config]
+    if tier == 'thorough':
+        flags.append('all_tuples')
     try:
         m = gen.generate(exp, templates(), rs, meta, flags)
     except LostAnchor as e:
@@ -165,13 +167,13 @@ def attribute(meta, line):
 
 def verus_property_run(prop, config, tag, tier):
     """Generate, select modules tagged with `prop`, verify; returns a result dict."""
-    rs, meta = generate(config, tag)
+    rs, meta = generate(config, tag, tier)
     mods = sorted(m for m, d in meta['modules'].items() if prop in d['props'])
     lemma_mods = sorted(set(l['module'] for l in meta['lemmas'] if prop in l['props']))
     sel = sorted(set(mods + lemma_mods))
     if not sel:
         raise Undecided('no Verus module is tagged with %s' % prop)
-    res = run_verus(rs, sel, tag)
+    res = run_verus(rs, sel, tag, rlimit=(100 if tier == 'thorough' else None))
     js = res['json']
     if js is None:
         raise Undecided('verus produced no JSON (rc=%d): %s' % (res['rc'], res['stderr'][-1500:]))
